@@ -10,8 +10,8 @@ Open Scope N_scope.
 Theorem C09_source_pins :
   list_eqb plain_int_re_text [45; 63; 92; 100; 43] && (plain_int_re_flags =? 256)
   && list_eqb te_literal [99; 104; 117; 110; 107; 101; 100] && (0 <? readall_chunk) = true
-  /\ ri_slice_fix = true.
-Proof. exact (conj plain_int_pattern_pinned slice_fix_present). Qed.
+  /\ ri_slice_fix = true /\ (forall m e, readall_post m e = m && e).
+Proof. exact (conj plain_int_pattern_pinned (conj slice_fix_present (fun m e => eq_refl))). Qed.
 Print Assumptions C09_source_pins.
 
 (* error exactness, one readinto: for every state, underlying stream, buffer kind and buffer,
@@ -95,11 +95,9 @@ Proof. exact short_body_disconnects. Qed.
 Print Assumptions C09_short_body_disconnects.
 
 (* on a schedule without failures and zero-length responses, however it fragments the reads,
-   read() delivers exactly the first `limit` bytes (declared length not longer than the body, or
-   a positive maximum) *)
-Theorem C09_readall_delivers : forall D lim m sched ri, benign sched = true ->
-  (m = false /\ lim <= lenN D) \/ (m = true /\ 0 < lim) ->
-  fst (fst (readall (ls_init lim m) (und_init D sched ri))) = OkB (takeN lim D).
+   read() on a declared length not longer than the body delivers exactly the first `limit` bytes *)
+Theorem C09_readall_delivers : forall D lim sched ri, benign sched = true -> lim <= lenN D ->
+  fst (fst (readall (ls_init lim false) (und_init D sched ri))) = OkB (takeN lim D).
 Proof. exact readall_delivers. Qed.
 Print Assumptions C09_readall_delivers.
 
@@ -127,30 +125,35 @@ Theorem C09_at_limit : forall s u n, limit s <= pos s ->
 Proof. exact at_limit. Qed.
 Print Assumptions C09_at_limit.
 
-(* KNOWN FINDING (key max-unbounded-read-truncates).  Full statement, false of the faithful model:
-     forall D lim sched ri, lim < lenN D ->
-       fst (fst (readall (ls_init lim true) (und_init D sched ri))) = Exn RequestEntityTooLarge
-   (a body longer than the configured maximum surfaces as RequestEntityTooLarge).  readall stops at
-   the maximum without the extra read, so an unbounded read() returns the first `lim` bytes. *)
-Theorem C09_max_body_too_large_refuted : exists D lim sched ri, lim < lenN D /\
-  fst (fst (readall (ls_init lim true) (und_init D sched ri))) = OkB (takeN lim D).
+(* a body that reaches the configured maximum surfaces as RequestEntityTooLarge from an unbounded
+   read() as well (repaired: afe6d66; the underlying stream is not read past the maximum, see
+   C09_invariant), however the input fragments its reads *)
+Theorem C09_max_body_too_large : forall D lim sched ri, benign sched = true -> lim <= lenN D ->
+  fst (fst (readall (ls_init lim true) (und_init D sched ri))) = Exn RequestEntityTooLarge.
+Proof. exact max_body_too_large. Qed.
+Print Assumptions C09_max_body_too_large.
+
+(* and a body below the maximum is delivered whole *)
+Theorem C09_max_body_fits : forall D lim sched ri, benign sched = true -> lenN D < lim ->
+  fst (fst (readall (ls_init lim true) (und_init D sched ri))) = OkB D.
+Proof. exact max_body_fits. Qed.
+Print Assumptions C09_max_body_fits.
+
+Example C09_max_body_example :
+  fst (fst (readall (ls_init 3 true) (und_init [1; 2] [RBytes 1] false))) = OkB [1; 2]
+  /\ fst (fst (readall (ls_init 2 true) (und_init [1; 2; 3] [RBytes 1] false))) = Exn RequestEntityTooLarge.
+Proof. vm_compute. split; reflexivity. Qed.
+Print Assumptions C09_max_body_example.
+
+(* the repaired defect: without the statement after the loop, read() returned the first `lim` bytes
+   of a longer body and no error *)
+Theorem C09_unrepaired_readall_refuted : exists D lim sched ri, lim < lenN D /\
+  fst (fst (readall_unrepaired (ls_init lim true) (und_init D sched ri))) = OkB (takeN lim D).
 Proof.
   exists [97; 98; 99], 2, [], true. split; [vm_compute; reflexivity|].
   rewrite max_readall_truncates_witness. reflexivity.
 Qed.
-Print Assumptions C09_max_body_too_large_refuted.
-
-(* what does hold for a maximum: a body that fits is delivered whole (guard: lenN D <= lim excludes
-   exactly the refuting class); and by C09_at_limit any read after the maximum was reached raises *)
-Theorem C09_max_body_partial : forall D lim sched ri, benign sched = true -> 0 < lim -> lenN D <= lim ->
-  fst (fst (readall (ls_init lim true) (und_init D sched ri))) = OkB D.
-Proof. exact max_body_fits. Qed.
-Print Assumptions C09_max_body_partial.
-
-Example C09_max_body_partial_example :
-  fst (fst (readall (ls_init 3 true) (und_init [1; 2] [RBytes 1] false))) = OkB [1; 2].
-Proof. vm_compute. reflexivity. Qed.
-Print Assumptions C09_max_body_partial_example.
+Print Assumptions C09_unrepaired_readall_refuted.
 
 (* get_content_length never raises; None exactly for chunked or absent; otherwise non-negative *)
 Theorem C09_content_length_total : forall cl te,
